@@ -453,6 +453,10 @@ func c04Alphabet(s *sessSys) []sessReq {
 				}
 				if f.Action&ActionBuffer == 0 {
 					add("mod-ufar-buffer", sessReq{sReq: sReq{Kind: kMod, Conn: c, UpdateFAR: []sFAR{{ID: 2, Action: ActionBuffer | ActionNotify, HasFwd: true}}}, Sess: x.Idx})
+					if f2 := x.far(2); f2 != nil && f2.OHCIP != "" && f2.Action == ActionForward {
+						// idle transition that keeps the tunnel parameters in the Update Forwarding Parameters
+						add("mod-ufar-buffer-keep-tunnel", sessReq{sReq: sReq{Kind: kMod, Conn: c, UpdateFAR: []sFAR{{ID: 2, Action: ActionBuffer | ActionNotify, HasFwd: true, HasDst: true, Dst: ie.DstInterfaceAccess, OHCIP: f2.OHCIP, OHCTEID: f2.OHCTEID}}}, Sess: x.Idx})
+					}
 				}
 			}
 		}
